@@ -74,6 +74,9 @@ def table_writes(fn):
     return out
 
 
+ARM_FUNCTIONS = ('is_dominated_by', 'process_edges')
+
+
 def run(tier, replay=None):
     chk = Check('C12', tier,
                 'Static decision of structural clauses of the edge collapser: with GUDHI_COLLAPSE_USE_DENSE_ARRAY every '
@@ -124,9 +127,45 @@ def run(tier, replay=None):
                    key='E2dual|%s|foreign-writer' % f['name'])
 
     # ---- T2 arm agreement of the domination tests
+    # helpers of the dense configuration that answer "neighbours at time f?" from the dense table: a bool function
+    # whose body compares a value read from neighbors_dense(..) with one of its parameters
+    def dense_value_names(f):
+        names = set()
+        for x in ir.walk(f.get('body')):
+            if x.get('k') == 'VarDecl' and x.get('init') is not None and \
+                    ir.show(ir.skipcasts(x['init'])).startswith('neighbors_dense('):
+                names.add(x['n'])
+        return names
+
+    def is_dense_value(e, names):
+        t = ir.show(ir.skipcasts(e))
+        return t.startswith('neighbors_dense(') or t in names
+
+    def cmp_sides(x):
+        c = x.get('c') or []
+        if x['k'] == 'CXXOperatorCallExpr':
+            c = c[1:]
+        return c
+    dense_helpers = {}
+    for f in F.funcs(unit='dense'):
+        if not f['file'].endswith('Flag_complex_edge_collapser.h') or f.get('body') is None:
+            continue
+        pn = [p_['n'] for p_ in f.get('params', [])]
+        names = dense_value_names(f)
+        for x in ir.walk(f['body']):
+            if x.get('k') in ('BinaryOperator', 'CXXOperatorCallExpr') and x.get('op') in ('>', '>=', '<', '<='):
+                c = cmp_sides(x)
+                if len(c) == 2 and is_dense_value(c[0], names) and ir.show(ir.skipcasts(c[1])) in pn:
+                    dense_helpers[f['name']] = (x['op'], pn.index(ir.show(ir.skipcasts(c[1]))))
+
     def bound_tests(f, dense):
         out = []
         for x in ir.walk(f.get('body')):
+            if dense and ir.is_call(x) and ir.call_name(x) in dense_helpers and ir.call_name(x) not in ARM_FUNCTIONS:
+                op, idx = dense_helpers[ir.call_name(x)]
+                args = ir.call_args(x)
+                if idx < len(args):
+                    out.append((op, ir.show(args[idx])))
             if x.get('k') in ('BinaryOperator', 'CXXOperatorCallExpr') and x.get('op') in ('>', '>=', '<', '<='):
                 c = x.get('c') or []
                 if x['k'] == 'CXXOperatorCallExpr':
@@ -137,7 +176,7 @@ def run(tier, replay=None):
                 if not dense and l.endswith('->second'):
                     out.append((x['op'], r))
         return out
-    for name in ('is_dominated_by', 'process_edges'):
+    for name in ARM_FUNCTIONS:
         d, s = bound_tests(fn('dense', name), True), bound_tests(fn('sparse', name), False)
         ok = bool(d) and sorted(set(d)) == sorted(set(s))
         chk.ob('E7b-arms', '%s: dense and sparse arms test the edge time against the same bound with the same '
@@ -174,6 +213,12 @@ def run(tier, replay=None):
                 t = ir.show(c)
                 if re.search(r'[<>]=?\s*%s\b' % re.escape(fpar), t) or re.search(r'\b%s\s*[<>]' % re.escape(fpar), t):
                     timed = True
+                for y in ir.walk(c):                      # "neighbours at time f?" asked through a helper
+                    if ir.is_call(y) and ir.call_name(y) in dense_helpers:
+                        args = ir.call_args(y)
+                        idx = dense_helpers[ir.call_name(y)][1]
+                        if idx < len(args) and ir.show(args[idx]) == fpar:
+                            timed = True
                 if re.search(r'\b%s\b' % re.escape(ngb), t) and ('empty()' in t or 'size()' in t) :
                     vacuous = True
             if not (timed or vacuous) and bad is None:
@@ -187,6 +232,36 @@ def run(tier, replay=None):
                'already kept can join the candidate later than the current time' % ('; '.join(
                    ('' if pol else '!') + ir.show(c)[:50] for c, pol, _ in bad.conds if not isinstance(c, tuple))[:200],
                    fpar), key='E10|is_dominated_by|%s|timed' % unit)
+
+    # ---- T2d the marker of the dense table is in-band: never() is also a value an edge can carry (+infinity, the
+    # largest integer, 0 for a number type without bounds). A function that compares a value of the dense table with a
+    # time also tells the marker from a stored value: it tests the value against never() and asks the neighbour lists
+    n_dense_cmp = 0
+    for f in F.funcs(unit='dense'):
+        if not f['file'].endswith('Flag_complex_edge_collapser.h') or f.get('body') is None:
+            continue
+        names = dense_value_names(f)
+        cmps = [x for x in ir.walk(f['body']) if x.get('k') in ('BinaryOperator', 'CXXOperatorCallExpr') and
+                x.get('op') in ('>', '>=', '<', '<=') and len(cmp_sides(x)) == 2 and
+                (is_dense_value(cmp_sides(x)[0], names) or is_dense_value(cmp_sides(x)[1], names))]
+        if not cmps:
+            continue
+        n_dense_cmp += len(cmps)
+        marker = any(x.get('k') in ('BinaryOperator', 'CXXOperatorCallExpr') and x.get('op') in ('==', '!=') and
+                     len(cmp_sides(x)) == 2 and
+                     any(is_dense_value(y, names) for y in cmp_sides(x)) and
+                     any(ir.show(ir.skipcasts(y)).replace('this->', '') == 'never()' for y in cmp_sides(x))
+                     for x in ir.walk(f['body']))
+        lists = any(ir.is_call(x) and ir.call_name(x) in ('find', 'count', 'contains') and
+                    ir.show(ir.call_receiver(x)).startswith('neighbors[') for x in ir.walk(f['body']))
+        ok = marker and lists
+        chk.ob('E4-in-band-marker', '%s compares a value of the dense table with a time and tells the marker never() '
+               'from a stored value (%d comparisons)' % (f['name'], len(cmps)), '%s:%s' % (H, cmps[0].get('l')), ok,
+               '' if ok else '`%s`: a pair marked "not neighbours" holds never(), which compares like an edge of that '
+               'value: with a bound equal to the marker every pair looks adjacent (%s)' % (
+                   ir.show(cmps[0])[:60], 'no test against never()' if not marker else 'the neighbour lists are not asked'),
+               key='E4|%s|in-band-marker' % f['name'])
+    chk.expect_count('E4-in-band-marker', 'comparisons of dense-table values with a time', n_dense_cmp, 1)
 
     # ---- T2c sentinels of the two template types
     n_cmp = n_inf = 0
